@@ -331,6 +331,13 @@ def _accumulator_updates(func: ast.AST, name: str) -> List[ast.AST]:
     return result
 
 
+def _ancestors(node: ast.AST):
+    cur = getattr(node, "_parent", None)
+    while cur is not None:
+        yield cur
+        cur = getattr(cur, "_parent", None)
+
+
 def _fold(ctx: Ctx, qual: str, kind: str) -> None:
     func = ctx.fn(RP, qual)
     sites = [c for c in _condition_met_calls(func) if not _negation_idiom(arg_of(c, 0, "met") or ast.Constant(0))]
@@ -348,6 +355,24 @@ def _fold(ctx: Ctx, qual: str, kind: str) -> None:
                 txt(gen.elt).endswith(".met") or "get_satisfied" in txt(gen.elt)) and not gen.generators[0].ifs
             ctx.ob("R01.5", RP, call, qual, "fold", ok, f"'{kind}' combines sub-verdicts with {kind}", form=txt(resolved))
             _fold_operands(ctx, func, qual)
+            continue
+        if isinstance(acc, ast.Constant) and isinstance(acc.value, bool):
+            # short-circuit form: the absorbing verdict (False for 'and') is returned under the fact that one operand
+            # gave it, the other verdict only once no operand did (outside the loop over the operands)
+            from ..flow import path_facts
+            stmt = next((a for a in _ancestors(call) if isinstance(a, ast.stmt)), None)
+            absorbing = acc.value is (kind != "and")
+            if absorbing:
+                ok = stmt is not None and any(txt(e).endswith(".met") and truth == (kind != "and")
+                                              for e, truth in path_facts(fcfg, stmt, fresh_only=True))
+            else:
+                ok = stmt is not None and not enclosing_loops(stmt, stop=func) and \
+                    any(isinstance(c2, ast.Call) and isinstance(arg_of(c2, 0, "met"), ast.Constant)
+                        and arg_of(c2, 0, "met").value is (kind != "and") for c2 in sites)
+            ctx.ob("R01.5", RP, call, qual, f"fold ({acc.value})", ok,
+                   f"a constant verdict of an '{kind}' chain is returned only when the operands' verdicts decide it", form=txt(call)[:80])
+            if call is sites[-1]:
+                _fold_operands(ctx, func, qual)
             continue
         if not isinstance(acc, ast.Name):
             ctx.cannot("R01.5", RP, call, qual, "fold", f"verdict is neither a name nor all()/any(): {txt(acc)}")
@@ -394,11 +419,22 @@ def _fold(ctx: Ctx, qual: str, kind: str) -> None:
 
 def _fold_operands(ctx: Ctx, func: ast.AST, qual: str) -> None:
     # the operands folded are all operands, each evaluated once with the same context
-    comp = [n for n in walk_local(func) if isinstance(n, ast.ListComp)]
+    comp = [n for n in walk_local(func) if isinstance(n, (ast.ListComp, ast.GeneratorExp))]
     ok_ops = any("self.operands" in txt(c.generators[0].iter) and "get_satisfied(details, local_only)" in txt(c.elt)
                  and not c.generators[0].ifs for c in comp)
+    form = "; ".join(txt(c) for c in comp)
+    if not ok_ops:
+        # loop form: every iteration evaluates its operand and nothing leaves the loop early - the reason profiles and
+        # ancillary hits of *all* operands reach the enclosing group, whatever the verdict
+        for loop in [n for n in walk_local(func) if isinstance(n, ast.For) and "self.operands" in txt(n.iter)]:
+            evaluated = any(isinstance(c, ast.Call) and last_attr(c) == "get_satisfied" and txt(c.func.value) == txt(loop.target)
+                            and [txt(a) for a in c.args] == ["details", "local_only"] for c in calls(loop))
+            exits = [n for n in walk_local(loop) if isinstance(n, (ast.Return, ast.Break, ast.Continue))]
+            ok_ops = evaluated and not exits
+            form = f"for {txt(loop.target)} in {txt(loop.iter)}" + (f" with early exit `{stmt_key(exits[0])}`" if exits else "")
     ctx.ob("R01.5", RP, func, qual, "operands", ok_ops,
-           "every operand is evaluated, with the caller's details and local_only", form="; ".join(txt(c) for c in comp))
+           "every operand is evaluated, with the caller's details and local_only (no operand is skipped: its reason profiles "
+           "and ancillary hits feed the enclosing group even when the chain's verdict is already decided)", form=form)
 
 
 def r01_5(ctx: Ctx) -> None:
